@@ -131,6 +131,9 @@ def _value(rng, kind, nodes, class_nodes=None):
     if kind == "node":
         return rng.choice(class_nodes if class_nodes else nodes)
     if kind == "str":
+        r = rng.random()
+        if r < 0.15:     # strings with blanks and non-ASCII characters (readers, codecs and sinks must agree on them)
+            return lit(rng.choice(["caf\u00e9 %d", "\u6771\u4eac %d", "na\u00efve v%d", "two words %d"]) % rng.randrange(10), XSD + "string")
         return lit("v%d" % rng.randrange(40), XSD + "string")
     if kind == "int":
         return lit(str(rng.randrange(100)), XSD + "integer")
